@@ -488,6 +488,7 @@ def check_wavevector(run, pkg, ndim):
     fi = it.fi
     fq = short(fi.qual)
     loc = fi.loc()
+    option_filters(run, pkg, q, fq, fi, ndim)
     numofq = ("sym", "numofq")
     st = [e for e in stores(it) if len(e.loops) == ndim and e.data["value"][0] in ("list", "tuple")]
     if len(st) != 1:
@@ -582,3 +583,48 @@ def check_wavevector(run, pkg, ndim):
                 and any(y[0] == "call" and y[1] == ".all" and kw(y, "axis", 1) == C(1) for y in walk(p_[2]))
             run.ob("R-CMP", fq, f"{ndim}D:onlypositive-cmp", True if (okc and cmps) else None, "onlypositive keeps vectors whose components are all >= 0 (documented range [0, N/2]: axis vectors stay)",
                    [show(x)[:50] for x in cmps], witness=None if okc else "vectors with a zero component such as (n, 0, 0) are dropped / sign test wrong", loc=loc)
+
+
+def option_filters(run, pkg, q, fq, fi, ndim):
+    """The post-filter of choosewavevector for every value of `onlypositive` (False, True, 'x', 'y'[, 'z']): the returned term, with
+    the option and the dimension bound, is evaluated with the loop-filled buffer replaced by ALL integer vectors of [-2, 2]^d
+    (plus unused all-zero rows) - a complete set of sign / zero patterns - and compared with the documented selection."""
+    import itertools
+    import numpy as np
+    from .. import concrete as _cc
+    _cc.FUNCS.setdefault("builtins.isinstance", isinstance)
+    _cc.FUNCS.setdefault("builtins.str", str)
+    Q = np.array(list(itertools.product(range(-2, 3), repeat=ndim)) + [[0] * ndim] * 3, dtype=np.int32)
+    opts = [False, True, "x", "y"] + (["z"] if ndim == 3 else [])
+    for opt in opts:
+        key = f"{ndim}D:filter onlypositive={opt!r}"
+        try:
+            it = interp(pkg, q, bind={"ndim": C(ndim), "onlypositive": C(opt)})
+            if len(it.returns) != 1:
+                raise ValueError("several returns")
+            ret = it.returns[0].data["value"]
+            bufs = {x for x in walk(ret) if x[0] == "call" and x[1] in ("numpy.zeros", "numpy.empty") and x[2] and x[2][0][0] == "tuple"}
+            if len(bufs) != 1:
+                raise ValueError(f"{len(bufs)} buffers")
+            env = {next(iter(bufs)): Q, ("builtin", "bool"): bool, ("builtin", "str"): str}
+            got = np.asarray(_cc.ev(ret, env))
+        except Exception as e:  # noqa
+            run.ob("R-LOOPDOM", fq, key, None, "post-filter evaluated on the complete lattice [-2, 2]^d", f"not evaluable: {type(e).__name__}: {str(e)[:60]}", loc=fi.loc())
+            continue
+        nz = Q[~(Q == 0).all(axis=1)]
+        if opt is False:
+            want = nz
+        elif opt is True:
+            want = nz[(nz >= 0).all(axis=1)]
+        else:
+            a = "xyz".index(opt)
+            others = [k for k in range(ndim) if k != a]
+            want = nz[(nz[:, a] > 0) & (nz[:, others] == 0).all(axis=1)]
+        gs = {tuple(r) for r in np.atleast_2d(got).tolist()} if got.size else set()
+        ws = {tuple(r) for r in want.tolist()}
+        ok = gs == ws and (got.shape[0] == want.shape[0] if got.ndim == 2 else not ws)
+        extra, missing = sorted(gs - ws), sorted(ws - gs)
+        what = {False: "all non-zero vectors are kept", True: "exactly the non-zero vectors with all components >= 0 are kept"}.get(opt, f"exactly the vectors along +{opt} (the other components zero) are kept")
+        run.ob("R-LOOPDOM", fq, key, ok, f"onlypositive={opt!r}: {what} (returned term evaluated on all integer vectors of [-2, 2]^{ndim})",
+               f"{len(gs)} vectors kept, {len(ws)} expected", witness=None if ok else
+               (f"kept although excluded: {extra[:3]}" if extra else (f"dropped although included: {missing[:3]}" if missing else "duplicated rows")), loc=fi.loc(), sound=True)
